@@ -1,13 +1,13 @@
 (* C04 - read_render: the reader on bytes, opened on the file the renderer wrote, returns
-   the table and trailer the specification gives for the rendered history (classic and
-   stream sections; every choice of white space, EOLs, subsections, /W, /Index, junk). *)
+   the table and trailer the specification gives for the rendered history (classic, stream
+   and hybrid sections; every choice of white space, EOLs, subsections, /W, /Index, junk). *)
 From Coq Require Import List NArith ZArith Bool Lia ZifyN ZifyNat ZifyBool.
 From GoPdf.Base Require Import Bytes Res.
 From GoPdf.Gen Require Import Gen_Consts.
 From GoPdf.C04 Require Import XRef XRefProofs XRefText XRefTextProofs Extent ExtentProofs Seq FileReader FileReaderProofs RenderShape RenderChecks.
 Import ListNotations.
 
-(* ---------- side conditions on the rendered chain (decidable) ---------- *)
+(* ---------- what the reader checks of a section (decidable) ---------- *)
 
 Lemma rsub_ok_eq rs : rsub_ok rs = sub_ok (rsub_subsection rs).
 Proof.
@@ -63,17 +63,6 @@ Definition sec_check (r : rsec) (prev : option Z) : bool :=
     end
   | RHybrid _ subs _ _ tr => forallb sub_ok subs && negb (has_dkey tr k_Prev) && negb (has_dkey tr k_XRefStm)
   end.
-Fixpoint chain_check (c : chain) : bool :=
-  match c with
-  | [] => true
-  | r :: rest => sec_check r (prev_of rest) && chain_check rest
-  end.
-
-Lemma chain_check_app l c : chain_check (l ++ c) = true -> chain_check c = true.
-Proof.
-  induction l as [|r l IH]; cbn [app chain_check]; [auto|]. intros H. apply andb_true_iff in H as [_ H]. auto.
-Qed.
-
 Definition hyb_image (f : bytes) (hdr : nat) (sec : rsec) : Prop :=
   match sec with
   | RHybrid _ _ so ssubs _ => exists d, keep_trailer d = [] /\ stream_image f hdr so ssubs d None
@@ -309,57 +298,73 @@ Proof.
   apply skipn_app_exact. rewrite !app_length. unfold len in *. lia.
 Qed.
 
-Lemma render_revisions_image : forall h pos prev ch c b ch' ps c' J X Y,
+Lemma rev_ok_xnum r : rev_ok r = true -> (d_xnum r < 16777216)%N.
+Proof.
+  unfold rev_ok. intros H. do 4 (apply andb_true_iff in H as [H _]).
+  apply andb_true_iff in H as [H Hx]. apply andb_true_iff in H as [_ Hs]. lia.
+Qed.
+
+Lemma render_revisions_image : forall h pos prev ch c b ch' ps c' J X Y lim,
   render_revisions h pos prev ch c = (b, ch', ps, c') ->
-  (forall r, In r h -> d_kind r <> KHybrid /\ (d_xnum r < 16777216)%N) ->
+  (forall r, In r h -> rev_ok r = true) ->
   len X = pos -> prev_rel prev ch ->
-  chain_check ch' = true ->
+  (pos + len b <= lim)%N -> (lim < lim10)%N ->
   chain_image (J ++ X ++ b ++ Y) (length J) ch ->
   chain_image (J ++ X ++ b ++ Y) (length J) ch'.
 Proof.
-  induction h as [|r h IH]; intros pos prev ch c b ch' ps c' J X Y H Hh HX Hp Hchk Himg; cbn [render_revisions] in H.
+  induction h as [|r h IH]; intros pos prev ch c b ch' ps c' J X Y lim H Hh HX Hp Hlim Hl10 Himg; cbn [render_revisions] in H.
   - injection H as _ <- _ _. exact Himg.
   - destruct (render_revision r pos prev c) as [[[b1 sec] ps1] c1] eqn:E1.
     destruct (render_revisions h (pos + len b1) (Some (Z.to_N (rsec_off sec))) (sec :: ch) c1) as [[[rest ch''] ps'] c2] eqn:E2.
     injection H as <- <- _ _.
-    destruct (Hh r (or_introl eq_refl)) as [Hk Hx].
-    destruct (render_revision_shape _ _ _ _ _ _ _ _ E1 Hk) as (pre & text & post & Hb1 & Hoff & Htext & Hpost).
-    destruct (render_revisions_extends _ _ _ _ _ _ _ _ _ E2) as [l Hl].
-    assert (Hsc : sec_check sec (prev_of ch) = true).
-    { rewrite Hl in Hchk. apply chain_check_app in Hchk. cbn [chain_check] in Hchk. apply andb_true_iff in Hchk. tauto. }
+    pose proof (Hh r (or_introl eq_refl)) as Hr.
+    rewrite len_app in Hlim.
+    destruct (render_revision_spec _ _ _ _ _ _ _ _ lim (prev_of ch) E1 Hr ltac:(lia) Hl10)
+      as (pre & text & post & Hb1 & Hoff & Htext & Hpost & Hsc & Hhyb).
     replace (J ++ X ++ (b1 ++ rest) ++ Y) with (J ++ (X ++ b1) ++ rest ++ Y) in * by (rewrite <- !app_assoc; reflexivity).
-    apply (IH (pos + len b1)%N (Some (Z.to_N (rsec_off sec))) (sec :: ch) c1 rest ch'' ps' c2 J (X ++ b1) Y E2).
+    apply (IH (pos + len b1)%N (Some (Z.to_N (rsec_off sec))) (sec :: ch) c1 rest ch'' ps' c2 J (X ++ b1) Y lim E2).
     + intros r' Hr'. apply Hh. right. exact Hr'.
     + rewrite len_app, HX. reflexivity.
     + unfold prev_rel, opt_prev. cbn [option_map prev_of]. rewrite Hoff. f_equal. lia.
-    + exact Hchk.
+    + lia.
+    + exact Hl10.
     + cbn [chain_image]. split; [|exact Himg].
       eapply (sec_check_image _ _ sec (prev_of ch) (d_xnum r) text (post ++ rest ++ Y)).
       * rewrite <- Hp. exact Htext.
       * exact Hsc.
-      * exact Hx.
+      * apply rev_ok_xnum. exact Hr.
       * rewrite Hoff, Hb1.
         replace (J ++ (X ++ pre ++ text ++ post) ++ rest ++ Y) with (J ++ X ++ pre ++ text ++ (post ++ rest ++ Y))
           by (rewrite <- !app_assoc; reflexivity).
         apply at_off_split. exact HX.
+      * destruct sec as [o subs tr|o subs d|o subs so ssubs tr]; cbn [hyb_image hyb_of] in *; try exact I.
+        destruct Hhyb as (pre1 & xtext & e & d & Hpre & Hso & Hxt & Hkd & Hck).
+        exists d. split; [exact Hkd|].
+        apply (sec_check_image _ _ (RStream so ssubs d) None (d_xnum r) xtext (e ++ text ++ post ++ rest ++ Y) Hxt Hck (rev_ok_xnum _ Hr)); [|exact I].
+        cbn [rsec_off]. rewrite Hso, Hb1, Hpre.
+        replace (J ++ (X ++ (pre1 ++ xtext ++ e) ++ text ++ post) ++ rest ++ Y)
+          with (J ++ X ++ pre1 ++ xtext ++ (e ++ text ++ post ++ rest ++ Y)) by (rewrite <- !app_assoc; reflexivity).
+        apply at_off_split. exact HX.
 Qed.
 
 (* the file ends with the startxref of the newest section *)
-Lemma render_revisions_tail : forall h pos prev ch c b ch' ps c',
+Lemma render_revisions_tail : forall h pos prev ch c b ch' ps c' lim,
   render_revisions h pos prev ch c = (b, ch', ps, c') -> h <> [] ->
-  (forall r, In r h -> d_kind r <> KHybrid) ->
+  (forall r, In r h -> rev_ok r = true) -> (pos + len b <= lim)%N -> (lim < lim10)%N ->
   exists A post, b = A ++ post /\ post_of (start_of ch') post.
 Proof.
-  induction h as [|r h IH]; intros pos prev ch c b ch' ps c' H Hne Hh; [congruence|].
+  induction h as [|r h IH]; intros pos prev ch c b ch' ps c' lim H Hne Hh Hlim Hl10; [congruence|].
   cbn [render_revisions] in H.
   destruct (render_revision r pos prev c) as [[[b1 sec] ps1] c1] eqn:E1.
   destruct (render_revisions h (pos + len b1) (Some (Z.to_N (rsec_off sec))) (sec :: ch) c1) as [[[rest ch''] ps'] c2] eqn:E2.
-  injection H as <- <- _ _.
+  injection H as <- <- _ _. rewrite len_app in Hlim.
   destruct h as [|r2 h].
   - cbn [render_revisions] in E2. injection E2 as <- <- _ _.
-    destruct (render_revision_shape _ _ _ _ _ _ _ _ E1 (Hh r (or_introl eq_refl))) as (pre & text & post & Hb1 & _ & _ & Hpost).
+    destruct (render_revision_spec _ _ _ _ _ _ _ _ lim None E1 (Hh r (or_introl eq_refl)) ltac:(lia) Hl10)
+      as (pre & text & post & Hb1 & _ & _ & Hpost & _).
     exists (pre ++ text), post. split; [rewrite Hb1, app_nil_r, <- app_assoc; reflexivity|exact Hpost].
-  - destruct (IH _ _ _ _ _ _ _ _ E2) as (A & post & -> & Hpost); [discriminate|intros r' Hr'; apply Hh; right; exact Hr'|].
+  - destruct (IH _ _ _ _ _ _ _ _ lim E2) as (A & post & -> & Hpost);
+      [discriminate|intros r' Hr'; apply Hh; right; exact Hr'|lia|exact Hl10|].
     exists (b1 ++ A), post. split; [rewrite <- app_assoc; reflexivity|exact Hpost].
 Qed.
 
@@ -448,10 +453,9 @@ Section ReadRender.
   Lemma read_render_lemma h c :
     let b := build h c in
     h <> [] ->
-    (forall r, In r h -> d_kind r <> KHybrid /\ (d_xnum r < 16777216)%N) ->
-    chain_check (b_chain b) = true ->
+    (forall r, In r h -> rev_ok r = true) ->
     wf_chain (file_size b) (b_chain b) = true ->
-    (Z.of_nat (length (b_bytes b)) < 2 ^ 62)%Z ->
+    (Z.of_nat (length (b_bytes b)) < 10 ^ 10)%Z ->
     exists m, open_bytes parse_value (S (length (layout_of (b_chain b)))) (b_bytes b)
               = Ok (m, spec_trailer (history_of (b_chain b)))
               /\ forall n, xlookup m n = spec_resolve (history_of (b_chain b)) n.
@@ -463,10 +467,13 @@ Section ReadRender.
     set (head := pdf_header ++ e0 ++ (if (kb =? 0)%N then bin_comment ++ e1 else [])).
     destruct (render_revisions h (len head) None [] c4) as [[[bb ch] ps] c5] eqn:ER.
     cbv zeta. unfold file_size. cbn [b_bytes b_hdr b_chain].
-    intros Hne Hh Hchk Hwf Hlen.
+    intros Hne Hh Hwf Hlen.
+    assert (Hlim : (len head + len bb < lim10)%N).
+    { unfold lim10. change (10 ^ 10)%Z with 10000000000%Z in Hlen. rewrite !app_length in Hlen. unfold len. lia. }
     (* the sections lie where the chain says *)
     assert (Himg : chain_image (junk ++ head ++ bb) (length junk) ch).
-    { pose proof (render_revisions_image h (len head) None [] c4 bb ch ps c5 junk head [] ER Hh eq_refl eq_refl Hchk) as H.
+    { pose proof (render_revisions_image h (len head) None [] c4 bb ch ps c5 junk head [] (len head + len bb)%N
+                    ER Hh eq_refl eq_refl ltac:(lia) Hlim) as H.
       rewrite app_nil_r in H. apply H. exact I. }
     (* the reader on layouts *)
     destruct (impl_read_refines _ _ Hwf) as (m & Hr & Hm).
@@ -479,11 +486,19 @@ Section ReadRender.
     { unfold len. lia. }
     unfold impl_read, impl_read_v in Hr.
     destruct (prev_ok (Z.of_N (len (junk ++ head ++ bb) - len junk)) (start_of ch)) eqn:Hpo; [|discriminate].
-    destruct (render_revisions_tail _ _ _ _ _ _ _ _ _ ER Hne (fun r Hr' => proj1 (Hh r Hr'))) as (A & post & -> & Hpost).
+    destruct (wf_chain_parts _ _ Hwf) as (_ & _ & Hnd & _).
+    destruct (render_revisions_tail _ _ _ _ _ _ _ _ _ (len head + len bb)%N ER Hne Hh ltac:(lia) Hlim) as (A & post & -> & Hpost).
     replace (junk ++ head ++ A ++ post) with ((junk ++ head ++ A) ++ post) in * by (rewrite <- !app_assoc; reflexivity).
     rewrite (find_xref_post _ _ _ _ Hpost); [|rewrite Hsize; exact Hpo|].
-    2:{ unfold prev_ok in Hpo. unfold len in Hpo. lia. }
+    2:{ unfold prev_ok in Hpo. unfold len in Hpo. change (10 ^ 10)%Z with 10000000000%Z in Hlen. lia. }
     rewrite Hsize.
-    eapply loop_agree; [apply chain_sec_agree; [exact Hparse|exact Himg]|exact Hr].
+    eapply loop_agree; [apply chain_sec_agree; [exact Hparse|exact Himg|exact Hnd]|exact Hr].
   Qed.
 End ReadRender.
+
+(* the hypotheses of read_render as one boolean (evaluated by the check for every generated file) *)
+Definition read_render_hyp (h : list drev) (b : built) : bool :=
+  match h with [] => false | _ :: _ => true end
+  && forallb rev_ok h
+  && wf_chain (file_size b) (b_chain b)
+  && (Z.of_nat (length (b_bytes b)) <? 10 ^ 10)%Z.
